@@ -177,7 +177,7 @@ def sigOf (op : Op) (p : Payload) (σs : List Ty) : Option Ty :=
   | .bvUlt | .bvUle | .bvSlt | .bvSle =>
     (match σs with | [.bv m, .bv n] => if m = n then some .bool else none | _ => none)
   | .bvComp =>
-    (match p, σs with | .ints [1], [.bv m, .bv n] => if m = n then some (.bv 1) else none | _, _ => none)
+    (match p, σs with | .ints [w], [.bv m, .bv n] => if w = 1 ∧ m = n then some (.bv 1) else none | _, _ => none)
   | .bvConcat =>
     (match p, σs with | .ints [w], [.bv m, .bv n] => if w = m + n then some (.bv w) else none | _, _ => none)
   | .bvExtract =>
